@@ -282,6 +282,13 @@ func (x *Exec) callWriteSummary(c *ssa.CallCommon, depth int) *callWrites {
 		out.names["BigVal"] = true
 		return out
 	}
+	if ns, ok := bufferWrites[funcKey(fn)]; ok {
+		// the bytes.Buffer model (zz_buffer.go)
+		for _, n := range ns {
+			out.names[n] = true
+		}
+		return out
+	}
 	if con := x.CS.Funcs[funcKey(fn)]; con != nil && !con.Inline {
 		save := x.curCall
 		x.curCall = c
@@ -381,6 +388,34 @@ func (x *Exec) havocReach(st *State, v Value) {
 	if t == nil {
 		x.heapHavocAllCallee(st)
 		return
+	}
+	if _, isIface := t.Underlying().(*types.Interface); isIface {
+		// decoding into an interface variable that holds nil: the decoder stores a value it
+		// allocated itself; nothing that existed before is written except the variable
+		if p, ok := v.(*PtrV); ok {
+			if cur, ok := x.Load(st, p).(*IfaceV); ok && cur.Tag.IsConst && cur.Tag.BVal != nil && cur.Tag.BVal.Sign() == 0 {
+				x.StoreTo(st, p, x.freshValue(st, t, "hv.reach"))
+				return
+			}
+		} else if iv, ok := v.(*IfaceV); ok && iv.Tag.IsConst {
+			if ct, ok := x.tagTypes[int(iv.Tag.BVal.Int64())]; ok {
+				var p *PtrV
+				func() {
+					defer func() {
+						if r := recover(); r != nil {
+							p = nil
+						}
+					}()
+					p, _ = x.unbox(st, ct, iv).(*PtrV)
+				}()
+				if p != nil {
+					if cur, ok := x.Load(st, p).(*IfaceV); ok && cur.Tag.IsConst && cur.Tag.BVal != nil && cur.Tag.BVal.Sign() == 0 {
+						x.StoreTo(st, p, x.freshValue(st, t, "hv.reach"))
+						return
+					}
+				}
+			}
+		}
 	}
 	if flatType(t, 0) {
 		// nothing hangs off the pointee: exactly that one object is written
